@@ -70,7 +70,7 @@ func Harness_C16_Parse() {
 		for j := 0; j < r; j++ {
 			vAssume(vNot(vEqStr(rc.name, recs[j].name)))
 		}
-		shape := vChoice(2) // 0: every field two bytes; 1: empty and short fields
+		shape := vChoice(3) // 0: every field two bytes; 1: empty and short fields; 2: field text that mentions the tag of a later field
 		ni := 2 * vChoice(2)
 		isoText := ""
 		for k := 0; k < ni; k++ {
@@ -87,6 +87,12 @@ func Harness_C16_Parse() {
 				n = []int{0, 1, 0, 2, 0}[k]
 			}
 			rc.fields[k] = vBytes(n, c16Printable())
+			if shape == 2 && k == 0 {
+				rc.fields[k] = vBytes(1, c16Printable()) + " <4>"
+			}
+			if shape == 2 && k == 2 {
+				rc.fields[k] = "see field <6>" + vBytes(1, c16Printable())
+			}
 		}
 		nsup := 2 * vChoice(2)
 		supText := ""
